@@ -44,7 +44,7 @@ META = {
     "design_ref": "5.1 C06",
 }
 
-F_INV = ["TypeOK", "Inv_Sync", "Inv_Prefix", "Inv_Exact", "Inv_NoPartial", "Inv_Terminal"]
+F_INV = ["TypeOK", "Inv_Sync", "Inv_Prefix", "Inv_Exact", "Inv_AllWatchers", "Inv_NoPartial", "Inv_Terminal"]
 S_INV = ["TypeOK_S", "Inv_SegNoLoss", "Inv_SegEager", "Inv_Eager_S", "Inv_NoSpuriousCrc", "Inv_Complete", "Inv_Detect"]
 INVARIANTS = F_INV + S_INV
 WITNESSES = ["Witness_Defunct", "Witness_MultiSeg", "Witness_Packed", "Witness_PlainInComp", "Witness_ZInComp",
@@ -53,7 +53,7 @@ REPORT_PER_SIGNATURE = 2
 
 
 def _consts(pos, neg, lo, hi, codecs, maxsegs, regs, free):
-    return {"Vers": {5}, "PosLens": set(pos), "NegLens": set(neg), "PushIds": {1}, "MinFrames": lo, "MaxFrames": hi, "AbsHdr": 2,
+    return {"Vers": {5}, "PosLens": set(pos), "NegLens": set(neg), "PushIds": {1}, "Watchers": {"bad", "good1", "good2"}, "Raising": {"bad"}, "MinFrames": lo, "MaxFrames": hi, "AbsHdr": 2,
             "MaxPayload": 4, "CLen": 2, "Codecs": set(codecs), "MaxSegs": maxsegs,
             "CorruptRegs": set(regs) if regs else "{}", "FreeFlags": free}
 
